@@ -293,6 +293,18 @@ fn chain_source_maps(
                             name_idx,
                             false,
                         );
+                    } else {
+                        // nothing in the original map at or before this position: keep it unmapped, otherwise
+                        // it resolves through whichever token precedes it in the chained map
+                        builder.add_raw(
+                            token.get_dst_line(),
+                            token.get_dst_col(),
+                            0,
+                            0,
+                            None,
+                            None,
+                            false,
+                        );
                     }
                 }
 
